@@ -3,7 +3,7 @@
    M = Model/C02.v (ExpressionEvaluator over the tables generated from the source),
    S = Spec/C02.v (ISO C). *)
 From Coq Require Import ZArith Bool String List.
-From CBI Require Import Lib.Data Lib.Res Gen.C02_tables Model.C02 Model.C02lex Spec.C02 Proofs.C02 Proofs.C02s Proofs.C02l Proofs.C02g Proofs.C02x Proofs.C02f.
+From CBI Require Import Lib.Data Lib.Res Gen.C02_tables Model.C02 Model.C02lex Spec.C02 Proofs.C02 Proofs.C02s Proofs.C02l Proofs.C02g Proofs.C02x Proofs.C02f Proofs.C02y.
 From CBI Require Model.C01 Spec.C01 Proofs.C01.
 Import ListNotations.
 Local Open Scope string_scope.
@@ -206,6 +206,26 @@ Theorem C02_text_to_value_partial :
 Proof. exact text_to_value. Qed.
 Print Assumptions C02_text_to_value_partial.
 
+(* The same for ARBITRARY spacing: after each token any run of blanks/tabs/newlines, or nothing at
+   all where the two neighbours cannot merge ([glue_ok]: decidable; e.g. no blank is needed in
+   `defined(A)&&-1<0u`, one is needed between `<` and `<=` or between `1` and `u`). *)
+Theorem C02_lexer_tokens_spaced :
+  forall need e u (ws : list (list Ascii.ascii)), static e = Some u -> names_ok e = true ->
+    List.length ws = List.length (tokens dt_source need e) ->
+    glue_ok (combine (tokens dt_source need e) ws) = true ->
+    tokenize (glue (combine (tokens dt_source need e) ws)) = Some (tokens dt_source need e).
+Proof. exact lex_tokens_spaced. Qed.
+Print Assumptions C02_lexer_tokens_spaced.
+
+Theorem C02_text_to_value_spaced_partial :
+  forall env e v (ws : list (list Ascii.ascii)),
+    names_ok e = true -> ids_ok env e = true -> guard e = true -> sem (map fst env) e = Some v ->
+    List.length ws = List.length (tokens dt_source 0 e) ->
+    glue_ok (combine (tokens dt_source 0 e) ws) = true ->
+    evaluate_text env (glue (combine (tokens dt_source 0 e) ws)) = OVal v.
+Proof. exact text_to_value_spaced. Qed.
+Print Assumptions C02_text_to_value_spaced_partial.
+
 (* Fuel: for EVERY token list and EVERY text - well-formed or not - the fuel the model gives itself
    suffices; "out of fuel" is unreachable, so M is a total function of its input. *)
 Theorem C02_fuel_suffices :
@@ -237,5 +257,9 @@ Example C02_nonvacuous_unbounded :
   names_ok C02_example = true /\
   string_of_list (join (tokens dt_source 0 C02_example)) =
     "( defined ( A ) && - 1 < 0u ) || 010 / ( 1 ? 2 : 1 / 0 ) == 4" /\
-  evaluate_text [("A", [])] (list_of_string "( defined ( A ) && - 1 < 0u ) || 010 / ( 1 ? 2 : 1 / 0 ) == 4") = OVal (V 1 false).
+  evaluate_text [("A", [])] (list_of_string "( defined ( A ) && - 1 < 0u ) || 010 / ( 1 ? 2 : 1 / 0 ) == 4") = OVal (V 1 false) /\
+  (* no blank at all is an admissible spacing of this example *)
+  glue_ok (combine (tokens dt_source 0 C02_example) (repeat [] 25)) = true /\
+  string_of_list (glue (combine (tokens dt_source 0 C02_example) (repeat [] 25))) =
+    "(defined(A)&&-1<0u)||010/(1?2:1/0)==4".
 Proof. vm_compute. repeat split; reflexivity. Qed.
